@@ -91,6 +91,14 @@ def _as_block(n):
     return {"k": "block", "stmts": [], "expr": n, "sp": n.get("sp"), "ty": n.get("ty")}
 
 
+def _mark_ret(val, ret):
+    """the value that stands where a `return` of the expanded helper stood (rules about early exits look for it)"""
+    if val is None:
+        val = {"k": "tup", "es": [], "ty": "()", "sp": ret.get("sp")}
+    val["was_ret"] = True
+    return val
+
+
 def _elim_block(stmts, expr, cont, rty, sp):
     """Return a block computing the function result for `stmts; expr` followed by the continuation `cont`
     ((stmts, expr) or None = this is the tail: the block's value is the result)."""
@@ -104,7 +112,7 @@ def _elim_block(stmts, expr, cont, rty, sp):
             val = x.get("e")
             if val is not None and _has_ret(val):
                 raise _NoElim()
-            return {"k": "block", "stmts": stmts[:i], "expr": val, "ty": rty, "sp": sp, "ret_elim": True}
+            return {"k": "block", "stmts": stmts[:i], "expr": _mark_ret(val, x), "ty": rty, "sp": sp, "ret_elim": True}
         new = _elim_branching(x, (rest_s, rest_e, cont), rty)
         return {"k": "block", "stmts": stmts[:i], "expr": new, "ty": rty, "sp": sp, "ret_elim": True}
     # no statement returns
@@ -113,7 +121,7 @@ def _elim_block(stmts, expr, cont, rty, sp):
             val = expr.get("e")
             if val is not None and _has_ret(val):
                 raise _NoElim()
-            return {"k": "block", "stmts": stmts, "expr": val, "ty": rty, "sp": sp, "ret_elim": True}
+            return {"k": "block", "stmts": stmts, "expr": _mark_ret(val, expr), "ty": rty, "sp": sp, "ret_elim": True}
         new = _elim_branching(expr, cont, rty)
         return {"k": "block", "stmts": stmts, "expr": new, "ty": rty, "sp": sp, "ret_elim": True}
     if cont is None:
